@@ -111,10 +111,21 @@ Proof.
   rewrite Hx, (IH Hs), (rel_to_attr _ _ Hrel). reflexivity.
 Qed.
 
-Lemma expire_none sc sets o : forallb (fun cv => check sc (snd cv)) sets = true -> expire_unevaluatable sc sets o = o.
+Lemma uneval_none sc sets : forallb (fun cv => check sc (snd cv)) sets = true -> uneval_targets sc sets = [].
 Proof.
-  unfold expire_unevaluatable. revert o. induction sets as [|cv sets IH]; intros o H; [reflexivity|].
-  cbn [forallb] in H. apply andb_true_iff in H as [H1 H2]. cbn [fold_left]. rewrite H1. now apply IH.
+  unfold uneval_targets. induction sets as [|cv sets IH]; intros H; [reflexivity|].
+  cbn [forallb] in H. apply andb_true_iff in H as [H1 H2]. cbn [filter]. rewrite H1. cbn [negb]. now apply IH.
+Qed.
+Lemma expire_attrs_nil o : forall c, expire_attrs [] o c = o c.
+Proof. reflexivity. Qed.
+
+(* with evaluable SET clauses only, the variable carried across the matched objects stays empty: every
+   matched object is treated like the first one *)
+Lemma apply_sets_st_evaluable sc sets o : forallb (fun cv => check sc (snd cv)) sets = true ->
+  snd (apply_sets_st sc sets [] o) = [] /\ fst (apply_sets_st sc sets [] o) = apply_sets sc sets o.
+Proof.
+  intros H. unfold apply_sets, apply_sets_st. rewrite (uneval_none sc sets H).
+  destruct (eval_sets sc sets (expire_attrs [] o)); split; reflexivity.
 Qed.
 
 Lemma assign_find (l : list (nat * attr)) : forall o c,
@@ -137,9 +148,13 @@ Qed.
 Lemma apply_sets_ok sc r sets : row_ok sc r -> targets_distinct sets = true -> forallb (set_ok sc r) sets = true ->
   exists o', apply_sets sc sets (obj_of r) = OOk o' /\ forall c, o' c = Loaded (upd r sets c).
 Proof.
-  intros Hrow Hd Hs. unfold apply_sets. rewrite (eval_sets_ok sc r Hrow sets Hs).
-  eexists. split; [reflexivity|]. intros c.
-  rewrite expire_none.
+  intros Hrow Hd Hs.
+  assert (Hck : forallb (fun cv => check sc (snd cv)) sets = true).
+  { apply forallb_forall. intros cv Hin. rewrite forallb_forall in Hs. specialize (Hs cv Hin).
+    unfold set_ok in Hs. destruct (wt sc (snd cv)) eqn:Hw; [|discriminate]. now destruct (wt_check _ _ _ Hw). }
+  unfold apply_sets, apply_sets_st. rewrite (uneval_none sc sets Hck).
+  change (expire_attrs [] (obj_of r)) with (obj_of r). rewrite (eval_sets_ok sc r Hrow sets Hs). cbn [filter fst].
+  eexists. split; [reflexivity|]. intros c. rewrite expire_attrs_nil.
   - rewrite assign_find.
     + unfold upd. clear. induction sets as [|[c0 v0] sets IH]; [reflexivity|].
       cbn [map find fst snd]. destruct (Nat.eqb c0 c); [reflexivity|exact IH].
@@ -148,8 +163,6 @@ Proof.
       cbn [map fst]. apply andb_true_iff. split; [|now apply IH].
       rewrite <- H1. f_equal. unfold is_target. clear. induction sets as [|x l IHl]; [reflexivity|].
       cbn [map existsb fst]. now rewrite IHl.
-  - apply forallb_forall. intros cv Hin. rewrite forallb_forall in Hs. specialize (Hs cv Hin).
-    unfold set_ok in Hs. destruct (wt sc (snd cv)) eqn:Hw; [|discriminate]. now destruct (wt_check _ _ _ Hw).
 Qed.
 
 Theorem update_in_sync sc crit sets r :
